@@ -836,6 +836,12 @@ def check_pair(ctx):
                       for e in p.events)
         if reloaded and not applied:
             bad = p
+        # ... and it leaves a file unapplied only because the cache says it
+        # has not changed (an emptied or vanished main file still replaces
+        # the layer it used to provide)
+        if not applied and reloaded is not False and \
+                p.outcome.kind == 'return':
+            bad = p
         if p.outcome.kind == 'return':
             rv = tl.expand(p.outcome.expr)
             # the reported value as the conditions of this path decide it
@@ -877,8 +883,11 @@ def check(ctx):
     from . import c20 as _c20
     ctx.borrow('C10.REAPPLY', _c20.check_gates, ctx.prog, ctx.prog.func(
         ENF + '.load_rules'), only=['C20.FLAGS'])
-    # C10.FIND: a policy file created after start-up is found (= C09.FIND)
+    # after the reset every located directory is applied again, in order
+    # (= C09.DIR-ORDER)
     from . import c09
+    ctx.borrow('C10.REAPPLY', c09.check_dirs, only=['C09.DIR-ORDER'])
+    # C10.FIND: a policy file created after start-up is found (= C09.FIND)
     nf, no = len(ctx.findings), len(ctx.obligations)
     c09.check_find(ctx)
     for fd in ctx.findings[nf:]:
